@@ -53,6 +53,11 @@ class Prop(common.PropertyCheck):
             yield {'k': 'gate', 'n': [200, 600, 50][i % 3], 'data': ['clusters', 'cont', 'ties', 'uniform'][i % 4], 'cont': ['array', 'sample'][i % 2],
                    'bins': ['edges', 'sample_linear', 'edges', 'sample_logicle'][i % 4] if i % 2 else 'edges', 'f': ['rand', 'k/n', 'default'][i % 3],
                    'sigma': ['scalar', 'pair', 'small'][i % 3], 'nan': False, 'seed': rng.randrange(1 << 30), 'regate_same_object': True}
+        # per-axis mixtures (explicit x edges, a bin count for y) on samples, with different scales for the two axes
+        for i in range(self.budget(18, 150)):
+            xs, ys = [('linear', 'logicle'), ('linear', 'log'), ('logicle', 'linear'), ('log', 'logicle')][i % 4]
+            yield {'k': 'gate', 'n': [200, 50, 600][i % 3], 'data': ['clusters', 'cont', 'uniform'][i % 3], 'cont': 'sample', 'bins': 'mixed_rev', 'f': ['rand', 'k/n', 'default'][i % 3],
+                   'sigma': ['scalar', 'small'][i % 2], 'nan': False, 'seed': rng.randrange(1 << 30), 'xscale': xs, 'yscale': ys}
         for what in ('one_event_bin_mask', 'no_event_bin_mask'):
             yield {'k': 'bad', 'what': what}
         for what in ('f<0', 'f>1', 'f<0 tiny', 'f>1 tiny', 'f<0 all outside', 'one_channel', 'three_channels', 'three_channels_two_distinct', 'four_channels_two_distinct', 'one_event'):
@@ -96,6 +101,8 @@ class Prop(common.PropertyCheck):
             bins = [np.linspace(0, 1000, int(r.choice([3, 8, 21]))), np.sort(r.uniform(0, 1100, size=int(r.choice([4, 9, 15]))))]
         elif bins_kind == 'mixed':
             bins = [int(r.choice([4, 11])), np.linspace(-10, 900, int(r.choice([5, 12])))]
+        elif bins_kind == 'mixed_rev':
+            bins = [np.linspace(-10, 1100, int(r.choice([5, 12]))), int(r.choice([4, 11, 16]))]
         else:
             bins = int(r.choice([8, 16, 32]))
         if kind == 'edgey' and isinstance(bins, list) and not np.isscalar(bins[0]):
@@ -125,7 +132,7 @@ class Prop(common.PropertyCheck):
             xy = np.array(xy, dtype=float)
             xy[0, 0] = np.inf; xy[1, 1] = -np.inf; xy[n // 2, 0] = np.inf
             data = xy
-        scale = {'sample_linear': 'linear', 'sample_log': 'log', 'sample_logicle': 'logicle'}.get(bins_kind, 'logicle')
+        scale = {'sample_linear': 'linear', 'sample_log': 'log', 'sample_logicle': 'logicle'}.get(bins_kind, case.get('xscale', 'logicle'))
         fk = case['f']
         if fk in ('0.1', '0.2', '0.3'):
             f = float(fk)
@@ -153,8 +160,8 @@ class Prop(common.PropertyCheck):
                                                                                (float(r.choice([4.0, 3.0, 0.5])), float(r.choice([0.5, 0.0001, 2.0]))))
         return data, xy, bins, scale, f, sigma
 
-    def gate(self, data, bins, scale, f, sigma, bin_mask=None):
-        kw = dict(channels=[0, 1], bins=bins, xscale=scale, yscale=scale, sigma=sigma, full_output=True)
+    def gate(self, data, bins, scale, f, sigma, bin_mask=None, yscale=None):
+        kw = dict(channels=[0, 1], bins=bins, xscale=scale, yscale=yscale or scale, sigma=sigma, full_output=True)
         if f is not None:
             kw['gate_fraction'] = f
         if bin_mask is not None:
@@ -211,7 +218,12 @@ class Prop(common.PropertyCheck):
                 except Exception:
                     pass
                 v[...] = keep
-            out = self.gate(data, copy.deepcopy(bins), scale, f, sigma)
+            out = self.gate(data, copy.deepcopy(bins), scale, f, sigma, yscale=case.get('yscale'))
+            if case.get('yscale') and isinstance(bins, list) and isinstance(bins[1], int) and hasattr(data, 'hist_bins'):
+                # a per-axis mixture (explicit edges, bin count) with different scales: the generated axis uses the sample's bins on ITS scale
+                want_ye = np.asarray(data.hist_bins(1, bins[1], case['yscale']), dtype=float)
+                if not np.array_equal(np.asarray(out.bin_edges[1], dtype=float), want_ye):
+                    return {'err': 'GridError:the y edges generated for bins=[edges, %d] with xscale=%s, yscale=%s are not the %s bins of the sample' % (bins[1], scale, case['yscale'], case['yscale'])}
         except Exception as e:
             return {'err': type(e).__name__ + ':' + str(e)[:100]}
         fe = 0.65 if f is None else f
@@ -249,6 +261,21 @@ class Prop(common.PropertyCheck):
             res['replay_same'] = bool(np.array_equal(np.asarray(rep.mask), mask))
         except Exception as e:
             res['replay_same'] = 'err:' + type(e).__name__
+        # the stored gate applied to another sample (a few of the events only), then to the first sample again: the caller's mask and edges are the
+        # caller's (unchanged), and the first sample is gated as before
+        try:
+            if n >= 4:
+                bm_own = bm.copy(); ex_own, ey_own = xe.copy(), ye.copy()
+                other = data[:max(2, n // 8)]
+                self.gate(other, [ex_own, ey_own], scale, f, sigma, bin_mask=bm_own)
+                if not np.array_equal(bm_own, bm) or not np.array_equal(ex_own, xe) or not np.array_equal(ey_own, ye):
+                    res['replay_same'] = 'applying the stored gate to another sample changed the caller\'s %s' % ('bin mask' if not np.array_equal(bm_own, bm) else 'edges')
+                else:
+                    rep2 = self.gate(data, [ex_own, ey_own], scale, f, sigma, bin_mask=bm_own)
+                    if not np.array_equal(np.asarray(rep2.mask), mask):
+                        res['replay_same'] = 'after the stored gate was applied to another sample, re-gating the first sample keeps other events'
+        except Exception as e:
+            res['replay_same'] = 'err (stored gate on another sample):' + type(e).__name__
         # permutation
         try:
             r = np.random.RandomState(case['seed'] % 997)
